@@ -19,7 +19,26 @@ def as_literal(p: Union[str, int, float, bool, None]) -> ast.Constant:
     Returns:
         ast.Constant: The ast constant node that represents the value.
     """
-    return ast.Constant(value=p, kind=None)
+    return ast.Constant(value=_plain_value(p), kind=None)
+
+
+def _plain_value(p: Any) -> Any:
+    """An instance of a subclass of one of the literal types - a member of a `(str, Enum)` or
+    `IntEnum` mix-in, a numpy float, a float that prints with its unit - travels as the plain
+    value it holds: its own `str()` or `repr()` is not a literal."""
+    if isinstance(p, bool):
+        return p
+    if isinstance(p, int) and type(p) is not int:
+        return int.__index__(p)
+    if isinstance(p, float) and type(p) is not float:
+        return float.__float__(p)
+    if isinstance(p, complex) and type(p) is not complex:
+        return complex.__pos__(p)
+    if isinstance(p, str) and type(p) is not str:
+        return str.__str__(p)
+    if isinstance(p, bytes) and type(p) is not bytes:
+        return bytes.__getitem__(p, slice(None))
+    return p
 
 
 def as_ast(p_var: Any) -> ast.expr:
@@ -285,8 +304,8 @@ class _rewrite_captured_vars(ast.NodeTransformer):
                 return ast.Constant(value=v)
             elif not callable(v) and not isinstance(v, ModuleType):
                 # If it is something we know how to make into a literal, we just send it down
-                # like that.
-                return as_literal(v)
+                # like that (as the object it is: an attribute may still be read off it).
+                return ast.Constant(value=v, kind=None)
             elif callable(v) and ((lm := safe_parse_wrapper(v)) is not None):
                 return lm
             else:
@@ -871,7 +890,12 @@ def parse_as_ast(
 
         # Since this is a function in python, we can look for lambda capture.
         call_args = global_getclosurevars(ast_source)
-        return _resolve_called_lambdas().visit(_rewrite_captured_vars(call_args).visit(src_ast))
+        captured = _rewrite_captured_vars(call_args).visit(src_ast)
+        # What is left of the captured objects are values: send them as plain literals
+        for n in ast.walk(captured):
+            if isinstance(n, ast.Constant):
+                n.value = _plain_value(n.value)
+        return _resolve_called_lambdas().visit(captured)
 
     elif isinstance(ast_source, str):
         a = ast.parse(ast_source.strip())  # type: ignore
